@@ -7,6 +7,7 @@ CONSTANTS
   Srcs <- MCOneSrc
   Reqs <- MCReqs
   Segs <- MCSegs
+  EnvClasses <- MCAllClasses
   MaxEnv = 2
   MaxVer = 3
   Stamped = FALSE
